@@ -1,23 +1,27 @@
 import CedarVerif.Cedar.Authorizer
-import CedarVerif.Lemmas.ManifestSound
+import CedarVerif.Lemmas.ManifestIn
 /-
 C17 helper lemmas, part 4: the induction over the core fragment.
 -/
 namespace Cedar.Manifest
 open Cedar
 
-/-- the fragment covered by the soundness proof: literals, variables, `.`/`has`, `&& || !`, `if`, unary `-`,
-`== < <= + - *`, `like`, `is`.  Outside: `in` and `contains*`/`isEmpty` (differential run only), record / set literals,
-extension calls, slots, unknowns, tags (rejected by the analysis). -/
+/-- binary operators of the fragment -/
+def FragOp (op : BinaryOp) : Prop :=
+  op = .less ∨ op = .lessEq ∨ op = .add ∨ op = .sub ∨ op = .mul ∨
+  op = .eq ∨ op = .contains ∨ op = .containsAll ∨ op = .containsAny ∨ op = .mem
+
+/-- the fragment covered by the soundness proof: literals, variables, `.`/`has`, `&& || !`, `if`, unary `-`, `isEmpty`,
+`== < <= + - *`, `in`, `contains containsAll containsAny`, `like`, `is`.  Outside: record / set literals, extension calls,
+slots, unknowns (differential run only), tags (rejected by the analysis). -/
 def InFrag : TExpr → Prop
   | .lit _ => True
   | .var _ => True
   | .ite c t e => InFrag c ∧ InFrag t ∧ InFrag e
   | .and a b => InFrag a ∧ InFrag b
   | .or a b => InFrag a ∧ InFrag b
-  | .unaryApp op _ a => (op = .not ∨ op = .neg) ∧ InFrag a
-  | .binaryApp op _ _ a b =>
-    (op = .eq ∨ op = .less ∨ op = .lessEq ∨ op = .add ∨ op = .sub ∨ op = .mul) ∧ InFrag a ∧ InFrag b
+  | .unaryApp _ _ a => InFrag a
+  | .binaryApp op _ _ a b => FragOp op ∧ InFrag a ∧ InFrag b
   | .getAttr e _ => InFrag e
   | .hasAttr e _ => InFrag e
   | .like e _ => InFrag e
@@ -106,12 +110,6 @@ theorem applyUnary_scalar (op : UnaryOp) (v w : Value) (h : applyUnary op v = .o
     | error x => simp [hb, bind, Except.bind] at h
     | ok s => simp only [hb, bind, Except.bind, Except.ok.injEq] at h; subst h; simp [Scalar]
 
-theorem applyUnary_trim (op : UnaryOp) (hop : op = .not ∨ op = .neg) {v' v : Value} (h : Trim v' v) :
-    applyUnary op v' = applyUnary op v := by
-  rcases hop with e | e <;> subst e
-  · simp only [applyUnary, trim_asBool h]
-  · simp only [applyUnary, trim_asInt h]
-
 theorem intOrErr_scalar (i : Int) (w : Value) (h : intOrErr i = .ok w) : Scalar w := by
   simp only [intOrErr] at h
   split at h
@@ -134,23 +132,165 @@ theorem arith_scalar (f : Int → Int → Int) (v1 v2 w : Value)
       simp only [ha, hb, bind, Except.bind] at h
       exact intOrErr_scalar _ _ h
 
-theorem applyBinary_frag (es es' : Entities) (op : BinaryOp)
-    (hop : op = .eq ∨ op = .less ∨ op = .lessEq ∨ op = .add ∨ op = .sub ∨ op = .mul) (v1 v2 : Value) :
-    applyBinary es' op v1 v2 = applyBinary es op v1 v2 ∧ (∀ w, applyBinary es op v1 v2 = .ok w → Scalar w) := by
-  rcases hop with e | e | e | e | e | e <;> subst e
-  · refine ⟨rfl, ?_⟩
-    intro w h; simp only [applyBinary, Except.ok.injEq] at h; subst h; simp [Scalar]
-  · exact ⟨rfl, fun w h => applyCmp_scalar _ _ _ _ h⟩
-  · exact ⟨rfl, fun w h => applyCmp_scalar _ _ _ _ h⟩
-  · exact ⟨rfl, fun w h => arith_scalar (· + ·) _ _ _ h⟩
-  · exact ⟨rfl, fun w h => arith_scalar (· - ·) _ _ _ h⟩
-  · exact ⟨rfl, fun w h => arith_scalar (· * ·) _ _ _ h⟩
-
 /-- `union empty empty`, `empty`, … : path sets that only describe scalars -/
 theorem pcover_scalar_empty {es es' : Entities} {req : Request} (v v' : Value) (h : Scalar v) : PCover es es' req .empty v v' := h
 
 theorem rootVal_var (req : Request) (x : Var) : evaluate req es [] (.var x) = .ok (rootVal req (.var x)) := by
   cases x <;> rfl
+
+theorem trim_asSet {v' v : Value} (h : Trim v' v) : v'.asSet = v.asSet := by
+  cases v with
+  | record kvs => obtain ⟨kvs', e, _⟩ := trim_record_inv h; subst e; rfl
+  | prim p => rw [trim_prim h]
+  | set s => rw [trim_nonrecord h (by intro kvs; simp)]
+  | ext x => rw [trim_nonrecord h (by intro kvs; simp)]
+
+theorem applyUnary_trim' (op : UnaryOp) {v' v : Value} (h : Trim v' v) : applyUnary op v' = applyUnary op v := by
+  cases op
+  · simp only [applyUnary, trim_asBool h]
+  · simp only [applyUnary, trim_asInt h]
+  · simp only [applyUnary, trim_asSet h]
+
+theorem setop_scalar {α} (x : Result α) (f : α → Bool) (w : Value)
+    (h : (do let s ← x; Except.ok (Value.prim (Prim.bool (f s)))) = Except.ok w) : Scalar w := by
+  cases x with
+  | error e => simp [bind, Except.bind] at h
+  | ok s => simp only [bind, Except.bind, Except.ok.injEq] at h; subst h; simp [Scalar]
+
+theorem applyBinary_nonmem (es es' : Entities) (op : BinaryOp) (hop : FragOp op) (hne : op ≠ .mem) (v1 v2 : Value) :
+    applyBinary es' op v1 v2 = applyBinary es op v1 v2 ∧ (∀ w, applyBinary es op v1 v2 = .ok w → Scalar w) := by
+  rcases hop with e | e | e | e | e | e | e | e | e | e <;> subst e
+  · exact ⟨rfl, fun w h => applyCmp_scalar _ _ _ _ h⟩
+  · exact ⟨rfl, fun w h => applyCmp_scalar _ _ _ _ h⟩
+  · exact ⟨rfl, fun w h => arith_scalar (· + ·) _ _ _ h⟩
+  · exact ⟨rfl, fun w h => arith_scalar (· - ·) _ _ _ h⟩
+  · exact ⟨rfl, fun w h => arith_scalar (· * ·) _ _ _ h⟩
+  · refine ⟨rfl, ?_⟩
+    intro w h; simp only [applyBinary, Except.ok.injEq] at h; subst h; simp [Scalar]
+  · exact ⟨rfl, fun w h => setop_scalar v1.asSet (fun s => Value.elem v2 s) w h⟩
+  · refine ⟨rfl, ?_⟩
+    intro w h
+    simp only [applyBinary] at h
+    cases h1 : v1.asSet with
+    | error e => simp [h1, bind, Except.bind] at h
+    | ok s1 =>
+      simp only [h1, bind, Except.bind] at h
+      exact setop_scalar v2.asSet (fun s2 => Value.subset s2 s1) w h
+  · refine ⟨rfl, ?_⟩
+    intro w h
+    simp only [applyBinary] at h
+    cases h1 : v1.asSet with
+    | error e => simp [h1, bind, Except.bind] at h
+    | ok s1 =>
+      simp only [h1, bind, Except.bind] at h
+      exact setop_scalar v2.asSet (fun s2 => s1.any (Value.elem · s2)) w h
+  · exact absurd rfl hne
+
+theorem applyMem_scalar (es : Entities) (v1 v2 w : Value) (h : applyBinary es .mem v1 v2 = .ok w) : Scalar w := by
+  simp only [applyBinary] at h
+  cases h1 : v1.asEntity with
+  | error e => simp [h1, bind, Except.bind] at h
+  | ok u1 =>
+    simp only [h1, bind, Except.bind] at h
+    cases v2 with
+    | prim p =>
+      cases p with
+      | entityUID u2 => simp only [Except.ok.injEq] at h; subst h; simp [Scalar]
+      | bool b => simp at h
+      | int n => simp at h
+      | string s => simp at h
+    | set vs =>
+      simp only at h
+      cases hr : asEntityList vs with
+      | error e => simp [hr] at h
+      | ok us => simp only [hr, Except.ok.injEq] at h; subst h; simp [Scalar]
+    | record kvs => simp at h
+    | ext y => simp at h
+
+/-- what the analysis of a binary operator of the fragment computes: the operands' tries are part of the result's trie,
+for `in` the left operand's paths are covered with the ancestors trie of the right operand's paths, and the result has
+no dereferenceable paths -/
+theorem binary_manifest {es es' : Entities} {req : Request} {op : BinaryOp} {ty1 ty2 : Option CedarType} {a b : TExpr} {r : Res}
+    (hop : FragOp op) (hm : manifestOfExpr (.binaryApp op ty1 ty2 a b) = .ok r) :
+    ∃ ra rb, manifestOfExpr a = .ok ra ∧ manifestOfExpr b = .ok rb ∧
+      (CoverRoots es es' req r.global → CoverRoots es es' req ra.global ∧ CoverRoots es es' req rb.global ∧
+        (op = .mem → PathsCov es es' req false rb.paths.toAncestorTrie ra.paths)) ∧
+      (∀ v v', Scalar v → PCover es es' req r.paths v v') := by
+  cases h1 : manifestOfExpr a with
+  | error x => rcases hop with e | e | e | e | e | e | e | e | e | e <;> subst e <;> simp [manifestOfExpr, primPair, h1] at hm
+  | ok ra =>
+    cases h2 : manifestOfExpr b with
+    | error x => rcases hop with e | e | e | e | e | e | e | e | e | e <;> subst e <;> simp [manifestOfExpr, primPair, h1, h2] at hm
+    | ok rb =>
+      refine ⟨ra, rb, rfl, rfl, ?_⟩
+      have prim : ∀ (hm : primPair (.ok ra) (.ok rb) = .ok r) (hne : op ≠ .mem),
+          (CoverRoots es es' req r.global → CoverRoots es es' req ra.global ∧ CoverRoots es es' req rb.global ∧
+            (op = .mem → PathsCov es es' req false rb.paths.toAncestorTrie ra.paths)) ∧
+          (∀ v v', Scalar v → PCover es es' req r.paths v v') := by
+        intro hm hne
+        simp only [primPair, Except.ok.injEq] at hm
+        subst hm
+        simp only [Res.union, Res.emptyPaths]
+        refine ⟨fun hcr => ?_, fun v v' h => Or.inl h⟩
+        obtain ⟨c1, c2⟩ := coverRoots_union es es' req _ _ hcr
+        exact ⟨c1, c2, fun e => absurd e hne⟩
+      have typed : ∀ (r1 : Res) (_hp : r1.paths = ra.paths)
+          (_hr1 : CoverRoots es es' req r1.global → CoverRoots es es' req ra.global ∧
+            (op = .mem → PathsCov es es' req false rb.paths.toAncestorTrie ra.paths))
+          (t1 t2 : CedarType) (f1 f2 : Res), r1.fullTypeRequired t1 = .ok f1 → rb.fullTypeRequired t2 = .ok f2 →
+          (CoverRoots es es' req (f1.union f2).emptyPaths.global → CoverRoots es es' req ra.global ∧ CoverRoots es es' req rb.global ∧
+            (op = .mem → PathsCov es es' req false rb.paths.toAncestorTrie ra.paths)) ∧
+          (∀ v v', Scalar v → PCover es es' req (f1.union f2).emptyPaths.paths v v') := by
+        intro r1 hp hr1 t1 t2 f1 f2 hf1 hf2
+        simp only [Res.fullTypeRequired] at hf1 hf2
+        cases hp1 : r1.paths.fullTypeRequired t1 with
+        | error x => simp [hp1] at hf1
+        | ok p1 =>
+          cases hp2 : rb.paths.fullTypeRequired t2 with
+          | error x => simp [hp2] at hf2
+          | ok p2 =>
+            simp only [hp1, Except.ok.injEq] at hf1
+            simp only [hp2, Except.ok.injEq] at hf2
+            subst hf1; subst hf2
+            simp only [Res.union, Res.emptyPaths]
+            refine ⟨fun hcr => ?_, fun v v' h => h⟩
+            obtain ⟨c1, c2⟩ := coverRoots_union es es' req _ _ hcr
+            obtain ⟨c3, _⟩ := coverRoots_union es es' req _ _ c1
+            obtain ⟨c4, c5⟩ := hr1 c3
+            exact ⟨c4, (coverRoots_union es es' req _ _ c2).1, c5⟩
+      rcases hop with e | e | e | e | e | e | e | e | e | e <;> subst e
+      · exact prim (by simpa [manifestOfExpr, h1, h2] using hm) (by decide)
+      · exact prim (by simpa [manifestOfExpr, h1, h2] using hm) (by decide)
+      · exact prim (by simpa [manifestOfExpr, h1, h2] using hm) (by decide)
+      · exact prim (by simpa [manifestOfExpr, h1, h2] using hm) (by decide)
+      · exact prim (by simpa [manifestOfExpr, h1, h2] using hm) (by decide)
+      all_goals
+        simp only [manifestOfExpr, h1, h2] at hm
+        cases ht1 : needTy ty1 with
+        | error x => simp [ht1] at hm
+        | ok t1 =>
+          cases ht2 : needTy ty2 with
+          | error x => simp [ht1, ht2] at hm
+          | ok t2 =>
+            simp only [ht1, ht2, show (BinaryOp.eq == BinaryOp.mem) = false from rfl,
+              show (BinaryOp.contains == BinaryOp.mem) = false from rfl,
+              show (BinaryOp.containsAll == BinaryOp.mem) = false from rfl,
+              show (BinaryOp.containsAny == BinaryOp.mem) = false from rfl,
+              show (BinaryOp.mem == BinaryOp.mem) = true from rfl, if_true, Bool.false_eq_true, if_false] at hm
+            split at hm
+            · simp at hm
+            · rename_i f1 hf1
+              split at hm
+              · simp at hm
+              · rename_i f2 hf2
+                simp only [Except.ok.injEq] at hm
+                subst hm
+                first
+                | exact typed ra rfl (fun h => ⟨h, fun e => absurd e (by decide)⟩) t1 t2 f1 f2 hf1 hf2
+                | exact typed (ra.withAncestorsRequired rb.paths.toAncestorTrie) rfl
+                    (fun h => by
+                      obtain ⟨c4, c5⟩ := coverRoots_addWrapped es es' req false rb.paths.toAncestorTrie ra.paths ra.global h
+                      exact ⟨c4, fun _ => c5⟩) t1 t2 f1 f2 hf1 hf2
 
 section main
 variable {es es' : Entities} {req : Request}
@@ -312,17 +452,36 @@ theorem eval_sliced (hsub : SubStore es es') (hctx : CtxWF req) :
   | .unaryApp op ty a, r, hf, hs, hm, hc => by
     simp only [InFrag] at hf
     simp only [SafeOps] at hs
-    obtain ⟨hop, hfa⟩ := hf
-    have hm' : ∃ ra, manifestOfExpr a = .ok ra ∧ r = ra.emptyPaths := by
-      rcases hop with e | e <;> subst e <;> simp only [manifestOfExpr] at hm <;>
-        (cases h1 : manifestOfExpr a with
-         | error x => simp [h1] at hm
-         | ok ra => simp only [h1, Except.ok.injEq] at hm; exact ⟨ra, rfl, hm.symm⟩)
-    obtain ⟨ra, h1, e⟩ := hm'
-    subst e
-    simp only [Res.emptyPaths] at hc ⊢
-    have iha := eval_sliced hsub hctx a ra hfa hs h1 hc
-    simp only [TExpr.erase, evaluate]
+    have hm' : ∃ ra, manifestOfExpr a = .ok ra ∧ r.paths = .empty ∧
+        (CoverRoots es es' req r.global → CoverRoots es es' req ra.global) := by
+      cases h1 : manifestOfExpr a with
+      | error x =>
+        cases op with
+        | not => simp [manifestOfExpr, h1] at hm
+        | neg => simp [manifestOfExpr, h1] at hm
+        | isEmpty =>
+          simp only [manifestOfExpr, h1] at hm
+          cases ht : needTy ty <;> simp [ht] at hm
+      | ok ra =>
+        refine ⟨ra, rfl, ?_⟩
+        cases op with
+        | not => simp only [manifestOfExpr, h1, Except.ok.injEq] at hm; subst hm; exact ⟨rfl, fun h => h⟩
+        | neg => simp only [manifestOfExpr, h1, Except.ok.injEq] at hm; subst hm; exact ⟨rfl, fun h => h⟩
+        | isEmpty =>
+          simp only [manifestOfExpr, h1] at hm
+          cases ht : needTy ty with
+          | error x => simp [ht] at hm
+          | ok t =>
+            simp only [ht, Res.fullTypeRequired] at hm
+            cases hp : ra.paths.fullTypeRequired t with
+            | error x => simp [hp] at hm
+            | ok p =>
+              simp only [hp, Except.ok.injEq] at hm
+              subst hm
+              exact ⟨rfl, fun h => (coverRoots_union es es' req _ _ h).1⟩
+    obtain ⟨ra, h1, hpaths, hcov⟩ := hm'
+    have iha := eval_sliced hsub hctx a ra hf hs h1 (hcov hc)
+    simp only [TExpr.erase, evaluate, hpaths]
     cases hv : evaluate req es [] a.erase with
     | error x =>
       simp only [hv, Rel] at iha
@@ -330,64 +489,15 @@ theorem eval_sliced (hsub : SubStore es es') (hctx : CtxWF req) :
     | ok v =>
       simp only [hv, Rel] at iha
       obtain ⟨v', e1, e2, _⟩ := iha
-      simp only [e1, applyUnary_trim op hop e2]
+      simp only [e1, applyUnary_trim' op e2]
       exact rel_of_eq_scalar (fun w h => applyUnary_scalar op v w h) (fun _ _ h => h)
   | .binaryApp op ty1 ty2 a b, r, hf, hs, hm, hc => by
     simp only [InFrag] at hf
     simp only [SafeOps] at hs
     obtain ⟨hop, hfa, hfb⟩ := hf
     obtain ⟨hna, hnb, hsa, hsb⟩ := hs
-    -- in every fragment case the global trie contains both operands' tries and the resulting paths are scalar-only
-    have hm' : ∃ ra rb, manifestOfExpr a = .ok ra ∧ manifestOfExpr b = .ok rb ∧
-        (CoverRoots es es' req r.global → CoverRoots es es' req ra.global ∧ CoverRoots es es' req rb.global) ∧
-        (∀ v v', Scalar v → PCover es es' req r.paths v v') := by
-      cases h1 : manifestOfExpr a with
-      | error x => rcases hop with e | e | e | e | e | e <;> subst e <;> simp [manifestOfExpr, primPair, h1] at hm
-      | ok ra =>
-        cases h2 : manifestOfExpr b with
-        | error x => rcases hop with e | e | e | e | e | e <;> subst e <;> simp [manifestOfExpr, primPair, h1, h2] at hm
-        | ok rb =>
-          refine ⟨ra, rb, rfl, rfl, ?_⟩
-          rcases hop with e | e | e | e | e | e <;> subst e
-          · -- ==
-            simp only [manifestOfExpr, h1, h2] at hm
-            cases ht1 : needTy ty1 with
-            | error x => simp [ht1] at hm
-            | ok t1 =>
-              cases ht2 : needTy ty2 with
-              | error x => simp [ht1, ht2] at hm
-              | ok t2 =>
-                simp only [ht1, ht2, show (BinaryOp.eq == BinaryOp.mem) = false from rfl, Bool.false_eq_true, if_false] at hm
-                cases hf1 : ra.fullTypeRequired t1 with
-                | error x => simp [hf1] at hm
-                | ok f1 =>
-                  cases hf2 : rb.fullTypeRequired t2 with
-                  | error x => simp [hf1, hf2] at hm
-                  | ok f2 =>
-                    simp only [hf1, hf2, Except.ok.injEq] at hm
-                    subst hm
-                    simp only [Res.fullTypeRequired] at hf1 hf2
-                    cases hp1 : ra.paths.fullTypeRequired t1 with
-                    | error x => simp [hp1] at hf1
-                    | ok p1 =>
-                      cases hp2 : rb.paths.fullTypeRequired t2 with
-                      | error x => simp [hp2] at hf2
-                      | ok p2 =>
-                        simp only [hp1, Except.ok.injEq] at hf1
-                        simp only [hp2, Except.ok.injEq] at hf2
-                        subst hf1; subst hf2
-                        simp only [Res.union, Res.emptyPaths]
-                        refine ⟨?_, fun v v' h => h⟩
-                        intro hcr
-                        obtain ⟨c1, c2⟩ := coverRoots_union es es' req _ _ hcr
-                        exact ⟨(coverRoots_union es es' req _ _ c1).1, (coverRoots_union es es' req _ _ c2).1⟩
-          all_goals
-            simp only [manifestOfExpr, primPair, h1, h2, Except.ok.injEq] at hm
-            subst hm
-            simp only [Res.union, Res.emptyPaths]
-            exact ⟨fun hcr => coverRoots_union es es' req _ _ hcr, fun v v' h => Or.inl h⟩
-    obtain ⟨ra, rb, h1, h2, hcov, hscal⟩ := hm'
-    obtain ⟨hc1, hc2⟩ := hcov hc
+    obtain ⟨ra, rb, h1, h2, hcov, hscal⟩ := binary_manifest (es := es) (es' := es') (req := req) hop hm
+    obtain ⟨hc1, hc2, hmemcov⟩ := hcov hc
     have iha := eval_sliced hsub hctx a ra hfa hsa h1 hc1
     have ihb := eval_sliced hsub hctx b rb hfb hsb h2 hc2
     simp only [TExpr.erase, evaluate]
@@ -397,7 +507,7 @@ theorem eval_sliced (hsub : SubStore es es') (hctx : CtxWF req) :
       simp only [iha]; rfl
     | ok v =>
       simp only [hv, Rel] at iha
-      obtain ⟨v', e1, e2, _⟩ := iha
+      obtain ⟨v', e1, e2, hpv⟩ := iha
       have ev : v' = v := trim_nonrecord e2 (fun kvs h => hna kvs (by rw [hv, h]))
       subst ev
       simp only [e1]
@@ -407,13 +517,22 @@ theorem eval_sliced (hsub : SubStore es es') (hctx : CtxWF req) :
         simp only [ihb]; rfl
       | ok w =>
         simp only [hw, Rel] at ihb
-        obtain ⟨w', f1, f2, _⟩ := ihb
+        obtain ⟨w', f1, f2, hpw⟩ := ihb
         have ew : w' = w := trim_nonrecord f2 (fun kvs h => hnb kvs (by rw [hw, h]))
         subst ew
         simp only [f1]
-        obtain ⟨g1, g2⟩ := applyBinary_frag es es' op hop v' w'
-        rw [g1]
-        exact rel_of_eq_scalar g2 hscal
+        by_cases hmem : op = .mem
+        · subst hmem
+          have key : applyBinary es' .mem v' w' = applyBinary es .mem v' w' := by
+            apply applyMem_sliced
+            intro u1 x e1 hx
+            subst e1
+            exact inE_sliced hsub hctx _ u1 x (anc_of_pcover x rb.paths [] w' hpw hx) ra.paths hpv (hmemcov rfl)
+          rw [key]
+          exact rel_of_eq_scalar (fun r hr => applyMem_scalar es v' w' r hr) hscal
+        · obtain ⟨g1, g2⟩ := applyBinary_nonmem es es' op hop hmem v' w'
+          rw [g1]
+          exact rel_of_eq_scalar g2 hscal
   | .getAttr e a, r, hf, hs, hm, hc => by
     simp only [InFrag] at hf
     simp only [SafeOps] at hs
